@@ -38,6 +38,18 @@ fn first_unlisted(v: Vec<Fail>, known: &BTreeSet<String>) -> Result<(), Fail> {
     }
 }
 
+/// Generator noise (programs FlatGraphBuilder rejects etc.) must stay below 20 % of the cases,
+/// otherwise the run says little about the property: inconclusive, never a pass.
+fn noise_guard(ctx: &mut Ctx) {
+    if ctx.is_replay() {
+        return;
+    }
+    let (ex, ev) = (ctx.excluded_count(), ctx.evaluations());
+    if ev >= 50 && ex * 5 > ev {
+        ctx.inconclusive(format!("{ex} of {ev} generated programs were excluded as generator noise (limit 20 %)"));
+    }
+}
+
 fn exclude_label(e: &str) -> String {
     if e.starts_with("builder: ") {
         format!("builder:{}", pipeline::err_label(e))
@@ -118,6 +130,10 @@ fn run_c18(ctx: &mut Ctx) {
     ctx.assume("'blocking input crosses a handoff' is read as DESIGN C18 clauses 3-5 (delay types and reference/access-group barriers); blocking operators are drained in place by the generated code");
     ctx.assume("programs rejected by FlatGraphBuilder diagnostics or by the adjacent-handoff check of build_dfir_code are generator noise (counted under `excluded`)");
     ctx.floor = 100;
+    ctx.extra.insert(
+        "exhaustive_subspace".into(),
+        vcommon::serde_json::json!("sub-check tiny-exhaustive: all step sequences of length <=3 (quick) / <=4 (thorough) over the 14-step reduced alphabet of gen::tiny_alphabet (map, union, tee, join, fold, defer_tick, cycle-open, cycle-close, singleton, #ref map, anti_join, handoff, enter-new-loop, leave-loop)"),
+    );
     let known = known_sigs(ctx);
     let k2 = known.clone();
     let tiny = gen::tiny_tapes(if thorough { 4 } else { 3 }, Profile::Accept);
@@ -242,6 +258,10 @@ fn run_c19(ctx: &mut Ctx) {
     ctx.assume("loop-ingress ordering edges (issue 3048, documented at find_subgraph_unionfind) are part of the same-tick dependency graph");
     ctx.assume("programs rejected by FlatGraphBuilder (e.g. a plain cycle wholly inside one loop block) are outside partition_graph's domain and counted as excluded");
     ctx.floor = 100;
+    ctx.extra.insert(
+        "exhaustive_subspace".into(),
+        vcommon::serde_json::json!("sub-check tiny-exhaustive: all step sequences of length <=3 (quick) / <=4 (thorough) over the 14-step reduced alphabet, cycle-injector profile"),
+    );
     let tiny = gen::tiny_tapes(if thorough { 4 } else { 3 }, Profile::Mixed);
     ctx.check_all("tiny-exhaustive", tiny, c19_body);
     ctx.check("cycle-injector", if thorough { 300_000 } else { 20_000 }, gen::tape(Profile::Mixed, 12), c19_body);
@@ -286,7 +306,7 @@ fn run_c42(ctx: &mut Ctx) {
     ctx.assume("only the DFIR half of C42 is served here; the Hydro half belongs to engine E5");
     ctx.floor = 200;
     ctx.check("in-process-x3", if thorough { 15_000 } else { 1_000 }, gen::tape(Profile::Accept, 14), c42::run_inproc);
-    ctx.check("cross-process-x3", if thorough { 5_000 } else { 400 }, gen::tape(Profile::Accept, 14), c42::run_xproc);
+    ctx.check("cross-process-x3", if thorough { 5_000 } else { 300 }, gen::tape(Profile::Accept, 14), c42::run_xproc);
     if c42::INFRA_FAIL.load(std::sync::atomic::Ordering::SeqCst) {
         ctx.inconclusive("a --child process could not be spawned or died");
     }
@@ -360,10 +380,22 @@ fn main() {
     vcommon::quiet_panics();
     match ctx.prop().to_string().as_str() {
         "C17" => c17::run(&mut ctx),
-        "C18" => run_c18(&mut ctx),
-        "C19" => run_c19(&mut ctx),
-        "C20" => run_c20(&mut ctx),
-        "C42" => run_c42(&mut ctx),
+        "C18" => {
+            run_c18(&mut ctx);
+            noise_guard(&mut ctx)
+        }
+        "C19" => {
+            run_c19(&mut ctx);
+            noise_guard(&mut ctx)
+        }
+        "C20" => {
+            run_c20(&mut ctx);
+            noise_guard(&mut ctx)
+        }
+        "C42" => {
+            run_c42(&mut ctx);
+            noise_guard(&mut ctx)
+        }
         other => {
             eprintln!("engine `graph` does not serve {other}");
             std::process::exit(2);
